@@ -167,7 +167,7 @@ func DischargeAll(obls []*Obligation, covers []*Cover, o DischargeOpts) (res []*
 				return
 			}
 			st, solver, t, all, dis := discharge(j.r.File, o.TimeoutS, o.Race)
-			if (st == "timeout" || st == "unknown") && o.Race {
+			if (st == "timeout" || st == "unknown") && o.Race && j.r.Cover == nil {
 				// one retry with a longer limit before reporting
 				st, solver, t, all, dis = discharge(j.r.File, 3*o.TimeoutS, true)
 			}
